@@ -368,7 +368,42 @@ func GenProbePath(t *rapid.T, defs []RouteDef) (path, kind string, target int, v
 // the main handler of each route.
 func Register(r *rux.Router, defs []RouteDef, h func(d RouteDef) rux.HandlerFunc) {
 	for _, d := range defs {
-		r.AddNamed(d.Name(), d.P.String(), h(d), d.Methods...)
+		RegisterOne(r, d, d.P.String(), h(d))
+	}
+}
+
+// RegisterOne adds route d under the given path text (the caller may have split off a group prefix) through one of
+// the equivalent registration APIs; which one is a pure function of the route (index and pattern length), so that a
+// table is always registered the same way.  Method names are also given in lower case and with surrounding blanks
+// (documented as equivalent), and a GET-only route may leave the method list to the default.
+func RegisterOne(r *rux.Router, d RouteDef, path string, h rux.HandlerFunc) {
+	name := d.Name()
+	ms := d.Methods
+	switch (d.Idx*7 + len(d.P.String())) % 7 {
+	case 1:
+		sp := make([]string, len(ms))
+		for i, m := range ms {
+			sp[i] = []string{strings.ToLower(m), " " + m + " ", strings.ToLower(m[:1]) + m[1:], m + " "}[(i+d.Idx)%4]
+		}
+		r.AddNamed(name, path, h, sp...)
+	case 2:
+		r.AddRoute(rux.NewNamedRoute(name, path, h, ms...))
+	case 3:
+		rux.NamedRoute(name, path, h, ms...).AttachTo(r)
+	case 4:
+		if len(ms) == 1 && ms[0] == "GET" {
+			r.AddNamed(name, path, h) // no methods: GET
+		} else {
+			r.AddNamed(name, path, h, ms...)
+		}
+	case 5:
+		r.Add(path, h, ms...).NamedTo(name, r)
+	case 6:
+		rt := rux.NewRoute(path, h, ms...)
+		rt.AttachTo(r)
+		rt.NamedTo(name, r)
+	default:
+		r.AddNamed(name, path, h, ms...)
 	}
 }
 
